@@ -25,6 +25,7 @@ import time
 
 VERIF = os.path.dirname(os.path.dirname(os.path.abspath(__file__)))
 REPO = os.environ.get('VERIF_REPO', '/repo')
+EVID = os.environ.get('VERIF_EVIDENCE', os.path.join(VERIF, 'evidence'))   # self-tests redirect this
 JAR = '/opt/veriftools/tla/tla2tools.jar:/opt/veriftools/tla/CommunityModules-deps.jar'
 SPEC = os.path.join(VERIF, 'spec')
 NCPU = os.cpu_count() or 4
@@ -72,7 +73,7 @@ def tlc(module, cfg, scratch, env=None, workers=1, heap='3g', timeout=3600, extr
     meta = tempfile.mkdtemp(prefix='meta-', dir=scratch)
     cmd = ['java', '-Xmx' + heap, '-Xss64m', '-XX:+UseParallelGC', '-XX:ParallelGCThreads=%d' % gcthreads, '-XX:CICompilerCount=2',
            '-DTLA-Library=' + ':'.join([SPEC, os.path.join(SPEC, 'trace'), os.path.join(SPEC, 'mc')]),
-           '-cp', JAR, 'tlc2.TLC', '-workers', str(workers), '-metadir', meta,
+           '-cp', JAR, 'tlc2.TLC', '-noGenerateSpecTE', '-workers', str(workers), '-metadir', meta,
            '-config', cfg] + list(extra) + [module]
     e = dict(os.environ)
     e.update(env or {})
@@ -260,7 +261,7 @@ def matches_known(prop, code, event, known):
 
 
 def write_replay_file(prop, code, events, expected_note):
-    d = os.path.join(VERIF, 'evidence', 'replays')
+    d = os.path.join(EVID, 'replays')
     os.makedirs(d, exist_ok=True)
     rid = hashlib.sha1((prop + code + json.dumps(events, sort_keys=True)).encode()).hexdigest()[:12]
     path = os.path.join(d, '%s-%s.json' % (prop, rid))
@@ -269,8 +270,67 @@ def write_replay_file(prop, code, events, expected_note):
 
 
 def write_evidence(prop, tier, seed, coverage, wall, violations, assumptions, level='model_checking'):
-    d = os.path.join(VERIF, 'evidence')
+    d = EVID
     os.makedirs(d, exist_ok=True)
     ev = {'property_id': prop, 'tier': tier, 'seed': seed, 'level': level, 'coverage': coverage,
           'assumptions': assumptions, 'wall_s': round(wall, 2), 'violations': violations}
     json.dump(ev, open(os.path.join(d, prop + '.json'), 'w'), indent=1)
+
+
+# ------------------------------------------------------------------ graph leg (TLC enumerates)
+
+MISMATCH_RE = re.compile(r'<<"GRAPH-MISMATCH", (.*)>>\s*$', re.M)
+
+
+def parse_tla_value(txt):
+    """Parses the small subset of TLA+ values TLC prints for mismatches: <<..>>, ints, strings,
+    TRUE/FALSE."""
+    txt = txt.replace('<<', '[').replace('>>', ']').replace('TRUE', 'true').replace('FALSE', 'false')
+    return json.loads(txt)
+
+
+def graph_leg(name, module, tier_env, to_events, what, workers=8, mc_module=None):
+    """Returns a leg: records the function graph `name` from the real code, lets TLC enumerate the
+    same domain (spec/mc/<module>) and turns every disagreement into replayable events."""
+    def leg(ctx):
+        scratch, tier = ctx['scratch'], ctx['tier']
+        env = dict(tier_env.get(tier, tier_env['quick']))
+        gfile = os.path.join(scratch, name + '.json')
+        t0 = time.time()
+        p = subprocess.run([ctx['harness'], 'graph', name, tier, gfile], capture_output=True, text=True, timeout=7200)
+        if p.returncode != 0:
+            raise HarnessError('graph driver %s failed: %s' % (name, tail(p.stdout + p.stderr)))
+        summ = None
+        for line in p.stdout.split('\n'):
+            if line.startswith('GRAPH-SUMMARY '):
+                summ = json.loads(line[len('GRAPH-SUMMARY '):])
+        log('[graph] %-8s real code: %d points, %d accepted, %d anomalies, %.1fs'
+            % (name, summ['total'], summ['accepted'], summ['anomalies'], time.time() - t0))
+        env['GRAPH_FILE'] = gfile
+        states = trans = 0
+        if mc_module:
+            r0 = run_mc(mc_module, scratch, workers=workers, env=env)
+            states += r0['distinct']
+            trans += r0['generated']
+        mod = os.path.join(SPEC, 'mc', module + '.tla')
+        cfg = os.path.join(SPEC, 'mc', module + '.cfg')
+        r = tlc(mod, cfg, scratch, env=env, workers=workers, heap='12g', timeout=7200, gcthreads=4)
+        if r['rc'] != 0 or 'No error has been found' not in r['out']:
+            raise HarnessError('graph check %s did not complete:\n%s' % (module, tail(r['out'], 50)))
+        if r['distinct'] != summ['total']:
+            raise HarnessError('graph %s incomplete: TLC enumerated %d points, the driver %d'
+                               % (name, r['distinct'], summ['total']))
+        mism = [parse_tla_value(m) for m in MISMATCH_RE.findall(r['out'])]
+        log('[graph] %-8s TLC enumerated %d points (= driver total), %d disagreements, %.1fs'
+            % (module, r['distinct'], len(mism), r['secs']))
+        bads = []
+        for m in mism[:400]:
+            evs, code = to_events(m)
+            bads.append((code, evs, 'graph point %s' % json.dumps(m)))
+        part = {'kind': 'graphs', 'states': states + r['distinct'], 'transitions': trans + r['generated'], 'traces': 1,
+                'info': {'graph': name, 'module': module, 'points': summ['total'], 'accepted_by_code': summ['accepted'],
+                         'anomalies': summ['anomalies'], 'disagreements': len(mism), 'domain': summ['domain'],
+                         'complete': True, 'what': what, 'secs': round(r['secs'], 1)},
+                'samples': [{'graph_point_accepted_by_code': json.load(open(gfile))['accepted'][:1]}]}
+        return part, bads
+    return leg
